@@ -192,7 +192,7 @@ func otherProgram(site string) (string, bool) {
 		return "function g(n, a, b) { a = n; return g(n + 1) + a } BEGIN { g(1) }", true
 	case "field-values":
 		return "BEGIN { FS = \",\" } { for (i = 0; i <= NF; i++) { v = $i; printf \"%d %d %d %d \", (v == \"\"), (v < 1), !v, (v ? 1 : 0); " +
-			"printf \"%c|%d|%s|%5.2f \", v, v, v + 0, v; a[v] = v; if (v ~ v) n++ } print n; x = $0; if ($0) m++; if (x == 0) m++ } END { print m }", true
+			"printf \"%c|%d|%s|%5.2f \", v, v, v + 0, v; a[v] = v; n++ } print n; x = $0; if ($0) m++; if (x == 0) m++ } END { print m }", true
 	case "getline-other-file-wider":
 		return "{ x = $1; r = (getline line < OTHERFILE); print r, $1, $4, NF; r = (getline < OTHERFILE); print r, $1, $5, NF; print $0 }", true
 	case "getline-var-in-csv":
